@@ -820,7 +820,15 @@ def i_CMPXCHG(i, fmap):
     dst, src = i.operands
     acc = {8: al, 16: ax, 32: eax, 64: rax}[dst.size]
     t = fmap(acc == dst)
-    fmap[zf] = tst(t, bit1, bit0)
+    # flags are those of CMP acc, dst:
+    a, v = fmap(acc), fmap(dst)
+    x, carry, overflow = SubWithBorrow(a, v)
+    fmap[af] = halfborrow(a, v)
+    fmap[pf] = parity8(x[0:8])
+    fmap[zf] = x == 0
+    fmap[sf] = x.bit(-1)
+    fmap[cf] = carry
+    fmap[of] = overflow
     if dst.size == 32 and dst._is_reg:
         x = fmap(src).zeroextend(64)
         v = fmap(dst).zeroextend(64)
